@@ -626,6 +626,9 @@ func main() {
 			fmt.Println("cannot read replay:", err)
 			return
 		}
+		if replayRecord(b, res) {
+			return
+		}
 		var wr struct {
 			Case caseRef `json:"case"`
 		}
@@ -662,6 +665,14 @@ func main() {
 		nwork *= 3
 	}
 	root := vlib.NewRNG(a.Seed)
+	// the manifest record codec first ((P) against a reference codec/replay, (K) cases for the Coq model; no DB
+	// involved): when the codec itself is broken the DB-level workloads below would only crash on it
+	recRoot := vlib.NewRNG(a.Seed ^ 0x7265636f7264)
+	krec, nrec := recordChecks(recRoot, res, a.Thorough())
+	if nrec > 0 {
+		writeRecordCases(res, a.Out, krec, 12, 250000)
+		return
+	}
 	type job struct {
 		w    *wl.Workload
 		out  *runOut
@@ -852,4 +863,7 @@ func main() {
 		nb = 64
 	}
 	writeByteCases(res, a.Out, kByteCases(root, res, nb, 120000), 16)
+	// manifests of real DBs: (P) against the reference replay and the DB's own version, (K) against the Coq model
+	krec = append(krec, realManifestChecks(recRoot, res, a.Thorough())...)
+	writeRecordCases(res, a.Out, krec, 12, 250000)
 }
